@@ -31,9 +31,9 @@ fn plan(tier: Tier) -> Vec<Unit> {
             v
         }
         Tier::Thorough => {
-            let mut v = crate::util::split_budget("roundtrip", 1_200_000, 4_000);
-            v.extend(crate::util::split_budget("documents", 1_500_000, 5_000));
-            v.extend(crate::util::split_budget("tokens", 300_000, 2_000));
+            let mut v = crate::util::split_budget("roundtrip", 12_000_000, 10_000);
+            v.extend(crate::util::split_budget("documents", 15_000_000, 10_000));
+            v.extend(crate::util::split_budget("tokens", 2_000_000, 5_000));
             v
         }
         Tier::Miri => {
